@@ -31,7 +31,7 @@ pub const ALPHA_SRC: &str = "(def (Report (volatile acked 0) (rtt 0)) (ctl 10) (
         (when true (:= Report.acked (+ Report.acked Ack.bytes_acked)) (:= Report.rtt Flow.rtt_sample_us) (:= loc 5) (fallthrough))
         (when (> Micros 3000) (report) (:= Micros 0))";
 
-pub const PROGS: [(&str, &str); 14] = [
+pub const PROGS: [(&str, &str); 15] = [
     ("alpha", ALPHA_SRC),
     ("beta", "(def (Report (volatile loss 0) (volatile sacked 0) (volatile inflight 0)) (thresh 100))
         (when true (:= Report.loss Ack.lost_pkts_sample) (:= Report.inflight Flow.packets_in_flight) (fallthrough))
@@ -52,18 +52,20 @@ pub const PROGS: [(&str, &str); 14] = [
         (when (> Micros c) (report) (:= Micros 0))"),
     // more than ten programs in one runtime
     ("eta", "(def (Report (z1 0))) (when true (:= Report.z1 1) (report))"),
-    ("theta", "(def (Report (z2 0)) (t 2)) (when true (:= Report.z2 t) (report))"),
+    ("theta", "(def (Report (z2 0)) (t 2) (on true) (volatile off false)) (when true (:= Report.z2 t) (report))"),
     ("iota", "(def (Report (volatile z3 0))) (when (> Micros 100) (:= Report.z3 3) (report) (:= Micros 0))"),
     ("kappa", "(def (Report (z4 0)) (kk 4) (Kk 5)) (when true (:= Report.z4 (+ kk Kk)) (report))"),
     // a program that declares control variables of its own under the names of the writable built-ins
     ("lambda", "(def (Report (volatile q 0)) (Cwnd 7) (Rate 8)) (when true (:= Report.q (+ Cwnd Rate)) (report))"),
+    // compiles, but the encoder refuses it (an immediate that does not fit): offered rarely, like "bad"
+    ("unenc", "(def (Report (x 0))) (when true (:= Rate 3000000000) (report))"),
 ];
 
 /// names whose lookup result is part of a program's descriptor
-pub const PROBE_NAMES: [&str; 34] = [
+pub const PROBE_NAMES: [&str; 36] = [
     "Report.acked", "Report.rtt", "ctl", "vctl", "loc", "Report.loss", "Report.sacked", "Report.inflight", "thresh",
     "Report.x", "k", "Report.one", "c1", "Report.two", "Report.three", "c2", "Report.m", "a", "b", "c",
-    "Cwnd", "Rate", "Micros", "Ack.bytes_acked", "Reported", "Report.m2", "Report.z1", "Report.z2", "t", "Report.z3", "Report.z4", "kk", "Kk", "Report.q",
+    "Cwnd", "Rate", "Micros", "Ack.bytes_acked", "Reported", "Report.m2", "Report.z1", "Report.z2", "t", "Report.z3", "Report.z4", "kk", "Kk", "Report.q", "on", "off",
 ];
 pub const EXTRA_FIELD_NAMES: [&str; 6] = ["__eventFlag", "__shouldReport", "nosuch", "Flow.was_timeout", "__x", ""];
 
@@ -81,9 +83,11 @@ pub enum Sym {
     Cr(u32, Option<String>, u32, u32),
     Ms(u32, UidRef, u8, Vec<u64>),
     Raw(Vec<u8>),
+    /// the first k bytes (at most all but one) of another message: a message cut off by the end of its datagram
+    Cut(usize, Box<Sym>),
 }
 #[derive(Clone, Debug)]
-pub enum UidRef { P(usize), X(u32) }
+pub enum UidRef { P(usize), X(u32), Q(usize, u32) }
 
 #[derive(Clone, Debug)]
 pub enum REv { D(u64, Vec<Sym>), E, S }
@@ -121,13 +125,15 @@ fn encode_sym(ctx: &Ctx, s: &Sym) -> Vec<u8> {
         Sym::Cr(sid, alg, cwnd, mss) => serialize::serialize(&create::Msg {
             sid: *sid, init_cwnd: *cwnd, mss: *mss, src_ip: 1, src_port: 2, dst_ip: 3, dst_port: 4, cong_alg: alg.clone() }).unwrap(),
         Sym::Ms(sid, u, nf, fs) => {
-            let uid = match u { UidRef::P(k) => *ctx.actual.get(k).unwrap_or(&(0xEE00_0000 + *k as u32)), UidRef::X(x) => *x };
+            let uid = match u { UidRef::P(k) => *ctx.actual.get(k).unwrap_or(&(0xEE00_0000 + *k as u32)), UidRef::X(x) => *x,
+                UidRef::Q(k, j) => ctx.actual.get(k).unwrap_or(&(0xEE00_0000 + *k as u32)).wrapping_add(j.wrapping_mul(65536)) };
             // num_fields is written as given (it may disagree with the number of values)
             let mut b = serialize::serialize(&measure::Msg { sid: *sid, program_uid: uid, num_fields: fs.len() as u8, fields: fs.clone() }).unwrap();
             b[12] = *nf;
             b
         }
         Sym::Raw(b) => b.clone(),
+        Sym::Cut(k, inner) => { let b = encode_sym(ctx, inner); let n = (*k).min(b.len().saturating_sub(1)); b[..n].to_vec() }
     }
 }
 
@@ -338,7 +344,11 @@ impl Flow for RecFlow {
         if self.hidden { return; }
         let cmds = {
             let mut c = self.ctx.lock().unwrap();
-            let uid = match c.canon.get(&m.program_uid) { Some(p) => format!("{:x}", p + 1), None => format!("{:x}", m.program_uid) };
+            let uid = match c.canon.get(&m.program_uid) { Some(p) => format!("{:x}", p + 1), None => {
+                // a uid that is a known one plus a multiple of 65536 is printed as the canonical one plus that multiple
+                let mut out = format!("{:x}", m.program_uid);
+                for j in 1..4u32 { if let Some(p) = c.canon.get(&m.program_uid.wrapping_sub(j * 65536)) { out = format!("{:x}", (*p as u32 + 1).wrapping_add(j * 65536)); break; } }
+                out } };
             // the values are private: read them back through every report slot of a probing scope
             let mut vals: Vec<u64> = vec![];
             if let Some(mut ps) = c.probe.clone() {
@@ -423,13 +433,14 @@ fn parse_cmds(s: &str) -> Option<Vec<Cmd>> {
     }).collect()
 }
 fn parse_sym(s: &str) -> Option<Sym> {
+    if let Some(rest) = s.strip_prefix("CUT:") { let (k, inner) = rest.split_once(':')?; return Some(Sym::Cut(k.parse().ok()?, Box::new(parse_sym(inner)?))); }
     let p: Vec<&str> = s.split(':').collect();
     match p.as_slice() {
         ["RDY", id] => Some(Sym::Rdy(u32::from_str_radix(id, 16).ok()?)),
         ["CR", sid, alg, cwnd, mss] => Some(Sym::Cr(u32::from_str_radix(sid, 16).ok()?, if *alg == "-" { None } else { Some(unescape_name(alg)) },
             u32::from_str_radix(cwnd, 16).ok()?, u32::from_str_radix(mss, 16).ok()?)),
         ["MS", sid, u, nf, fs] => {
-            let uref = if let Some(k) = u.strip_prefix('p') { UidRef::P(k.parse().ok()?) } else { UidRef::X(u32::from_str_radix(u.strip_prefix('x')?, 16).ok()?) };
+            let uref = if let Some(k) = u.strip_prefix('p') { UidRef::P(k.parse().ok()?) } else if let Some(kj) = u.strip_prefix('q') { let (k, j) = kj.split_once('.')?; UidRef::Q(k.parse().ok()?, j.parse().ok()?) } else { UidRef::X(u32::from_str_radix(u.strip_prefix('x')?, 16).ok()?) };
             let fields = if *fs == "-" { vec![] } else { fs.split(',').map(|x| u64::from_str_radix(x, 16).ok()).collect::<Option<Vec<_>>>()? };
             Some(Sym::Ms(u32::from_str_radix(sid, 16).ok()?, uref, u8::from_str_radix(nf, 16).ok()?, fields))
         }
@@ -781,9 +792,15 @@ fn gen_fields(r: &mut Rng, n: usize) -> String {
 fn gen_ctl_fields(r: &mut Rng, prog: &str, n: usize) -> String {
     // mostly controllable names of that program
     let pool: &[&str] = match prog { "alpha" | "alpha2" => &["ctl", "vctl", "Cwnd", "Rate"], "beta" => &["thresh", "Cwnd"], "gamma" => &["k", "Rate"],
-        "delta" => &["a", "b", "c", "Cwnd", "Rate"], "epsilon" => &["a", "b", "c", "ctl", "Rate"], "theta" => &["t", "Cwnd"], "kappa" => &["kk", "Kk", "Rate"], "lambda" => &["Cwnd", "Rate"], _ => &["c1", "c2", "Cwnd"] };
+        "delta" => &["a", "b", "c", "Cwnd", "Rate"], "epsilon" => &["a", "b", "c", "ctl", "Rate"], "theta" => &["t", "on", "off", "Cwnd"], "kappa" => &["kk", "Kk", "Rate"], "lambda" => &["Cwnd", "Rate"], _ => &["c1", "c2", "Cwnd"] };
     if n == 0 { return "-".into(); }
-    (0..n).map(|_| format!("{}={:x}", if r.chance(9, 10) { *r.pick(pool) } else { *r.pick(&PROBE_NAMES) }, r.u32b())).collect::<Vec<_>>().join("&")
+    (0..n).map(|_| {
+        let base = if r.chance(9, 10) { *r.pick(pool) } else { *r.pick(&PROBE_NAMES) };
+        // now and then a name the program does not declare that merely looks like one it does
+        let name = match r.below(40) { 0 => format!("Control.{}", base), 1 => format!("Report.{}", base), 2 => format!("{}.", base), 3 => base.to_uppercase(), 4 => format!("Flow.{}", base), _ => base.to_string() };
+        // values: mostly arbitrary, often small (0, 1, 2, 3)
+        let v = if r.chance(1, 4) { r.below(4) as u32 } else { r.u32b() };
+        format!("{}={:x}", name, v) }).collect::<Vec<_>>().join("&")
 }
 fn gen_cmds(r: &mut Rng, report: bool) -> String {
     let n = r.below(4);
@@ -801,6 +818,9 @@ fn gen_cmds(r: &mut Rng, report: bool) -> String {
         }
     }).collect::<Vec<_>>().join("+")
 }
+
+/// a measurement's uid reference: mostly the program itself, now and then the same uid plus a multiple of 65536
+fn uidref_of(r: &mut Rng, p: usize) -> String { if r.chance(1, 30) { format!("q{}.{}", p, 1 + r.below(3)) } else { format!("p{}", p) } }
 
 fn report_fields_of(p: usize) -> &'static [&'static str] {
     match p { 0 | 7 => &["Report.acked", "Report.rtt"], 1 => &["Report.loss", "Report.sacked", "Report.inflight"], 2 => &["Report.x"],
@@ -835,10 +855,11 @@ pub fn gen_case(r: &mut Rng, adversarial: bool, faults: bool) -> String {
         if ps.contains(&3) && ps.contains(&4) { ps.retain(|x| *x != 4); }   // one map cannot hold a name twice
         if *i == 0 && ps.is_empty() { ps.push(0); }
         if r.chance(1, 80) { ps.push(5); }
+        if r.chance(1, 80) { ps.push(14); }
         offered.extend(ps.iter().cloned());
         ip.push(format!("{}:{}", i, ps.iter().map(|p| p.to_string()).collect::<Vec<_>>().join(",")));
     }
-    offered.retain(|p| *p != 5);
+    offered.retain(|p| *p != 5 && *p != 14);
     if offered.is_empty() { offered.push(0); }
     // behaviour: usually select an offered program at creation and read its fields on reports
     let main = *r.pick(&offered);
@@ -906,8 +927,8 @@ pub fn gen_case(r: &mut Rng, adversarial: bool, faults: bool) -> String {
                 let sid = if !mine.is_empty() && r.chance(5, 6) { *r.pick(&mine) } else { *r.pick(&sids) };
                 let n = if r.chance(1, 10) { r.below(20) } else { r.range(1, 4) } as usize;
                 let u = if after_raw { format!("x{:x}", 0xF000_0000u32 + r.below(100) as u32) }
-                    else if r.chance(3, 4) { format!("p{}", main) }
-                    else if r.chance(2, 3) { format!("p{}", r.pick(&[0usize, 1, 2, 3, 4, 6, 7])) }
+                    else if r.chance(3, 4) { uidref_of(r, main) }
+                    else if r.chance(2, 3) { let q = *r.pick(&[0usize, 1, 2, 3, 4, 6, 7, 8, 10, 13]); uidref_of(r, q) }
                     else { format!("x{:x}", 0xF000_0000u32 + r.below(100) as u32) };
                 let nf = if r.chance(1, 15) { r.below(6) } else { n as u64 };
                 if nf == 0 { live.retain(|x| *x != (a, sid)); }
@@ -931,6 +952,7 @@ pub fn gen_case(r: &mut Rng, adversarial: bool, faults: bool) -> String {
             };
             ms.push(m);
         }
+        if r.chance(1, 12) { if let Some(last) = ms.pop() { if last.starts_with("CR:") || last.starts_with("MS:") { ms.push(format!("CUT:{}:{}", r.pick(&[4usize, 8, 9, 12, 16, 20, 24, 31, 32, 40, 60, 95]), last)); } else { ms.push(last); } } }
         evs.push(format!("D{:x}:{}", a, ms.join("+")));
     }
     let sendfail = if faults && r.chance(1, 3) { format!("{}", r.below(sends_guess as u64 + 4)) } else { "-".to_string() };
